@@ -103,7 +103,9 @@ def main(out_v, out_json):
     g.rx("enc_long_width", encf, r"put_u8\(flags\);\s*if len >\s*" + NUM + r"\s*\{\s*dst\.put_(u\d+)\(len as u\d+\)", 2, lambda s: widths[s])
     g.rx("enc_short_width", encf, r"\}\s*else\s*\{\s*dst\.put_(u\d+)\(len as u\d+\)", 1, lambda s: widths[s])
     encm = fn_body(zc, r"fn encode\s*\(&mut self")
-    g.put("enc_more_on_all_but_last", None if encm is None else (1 if re.search(r"let last_element = message\.len\(\) - 1;.*encode_frame\(part, dst, idx != last_element\)", encm, re.S) else 0), "syntax")
+    # (a rewrite of the loop that the pattern does not recognise is not a verdict: the flag is then MEASURED on the compiled
+    # code by the probe fallback, like the encoder's constants)
+    g.put("enc_more_on_all_but_last", 1 if encm is not None and re.search(r"let last_element = message\.len\(\) - 1;.*encode_frame\(part, dst, idx != last_element\)", encm, re.S) else None, "syntax")
 
     cm = rd("src/codec/command.rs")
     frm = fn_body(cm, r"fn from\(command: ZmqCommand\) -> Self")
